@@ -36,6 +36,7 @@
 #include <string>
 #include <vector>
 
+#include <dirent.h>
 #include <fcntl.h>
 #include <sys/mman.h>
 #include <sys/resource.h>
@@ -533,7 +534,42 @@ struct ChildOutcome {
     std::string sig;
     std::string msg;
     int signal_no = 0;
+    bool deadlock = false;  // hung, and all threads asleep without consuming CPU: not slowness
 };
+
+// CPU ticks consumed by all threads of a process and the number of threads that are runnable or in uninterruptible sleep
+struct ProcSample {
+    unsigned long long ticks = 0;
+    int busy = 0;
+    int threads = 0;
+};
+inline ProcSample sample_proc(pid_t pid) {
+    ProcSample ps;
+    std::string dir = "/proc/" + std::to_string(static_cast<int>(pid)) + "/task";
+    DIR* d = opendir(dir.c_str());
+    if (!d) return ps;
+    while (dirent* e = readdir(d)) {
+        if (e->d_name[0] == '.') continue;
+        std::ifstream f(dir + "/" + e->d_name + "/stat");
+        std::string line;
+        std::getline(f, line);
+        auto rp = line.rfind(')');
+        if (rp == std::string::npos) continue;
+        std::istringstream is(line.substr(rp + 1));
+        std::string state;
+        is >> state;
+        unsigned long long v = 0, utime = 0, stime = 0;
+        for (int field = 4; field <= 15 && (is >> v); ++field) {  // fields 4..13 skipped, 14 utime, 15 stime
+            if (field == 14) utime = v;
+            if (field == 15) stime = v;
+        }
+        ps.ticks += utime + stime;
+        ++ps.threads;
+        if (state == "R" || state == "D") ++ps.busy;
+    }
+    closedir(d);
+    return ps;
+}
 
 inline void child_redirect_stderr(const std::string& path) {
     if (path.empty()) return;
@@ -601,11 +637,22 @@ inline ChildOutcome run_child(const std::function<int()>& fn, double timeout_s, 
             last_hb = hb;
             last_change = now_s();
         } else if (now_s() - last_change > timeout_s) {
+            // Slow or stuck? Look at the child for three more seconds: if no thread is runnable or in I/O and the process consumed
+            // no CPU at all, every thread is waiting for something that cannot happen any more -- a deadlock, not load.
+            ProcSample a = sample_proc(pid);
+            int busy = a.busy;
+            ProcSample b = a;
+            for (int k = 0; k < 6; ++k) {
+                usleep(500000);
+                b = sample_proc(pid);
+                busy += b.busy;
+            }
+            out.deadlock = a.threads > 0 && b.threads > 0 && busy == 0 && b.ticks <= a.ticks + 1;
             kill(pid, SIGKILL);
             waitpid(pid, &status, 0);
             out.kind = ChildOutcome::hung;
-            out.sig = "hang";
-            out.msg = "no progress for " + std::to_string(timeout_s) + " s";
+            out.sig = out.deadlock ? "deadlock" : "hang";
+            out.msg = "no progress for " + std::to_string(timeout_s) + " s" + (out.deadlock ? "; all " + std::to_string(b.threads) + " threads asleep and no CPU time consumed during 3 more seconds (deadlock)" : "");
             return out;
         }
         usleep(2000);
@@ -831,7 +878,7 @@ inline int replay_main(const Property& prop) {
                     Src dummy{std::vector<uint64_t>{}};
                     return run_one_in_process([&](Src&) { it->second(); }, dummy);
                 },
-                opts().case_timeout * 3, errpath);
+                opts().case_timeout * 1.5, errpath);
             if (o.kind == ChildOutcome::ok) {
                 std::printf("REPLAY pass file=%s\n", opts().replay.c_str());
                 return 0;
@@ -847,7 +894,7 @@ inline int replay_main(const Property& prop) {
         return 2;
     }
     std::string errpath = opts().out.empty() ? "" : opts().out + ".stderr";
-    ChildOutcome o = run_sequence(prop, seq, true, opts().case_timeout * 3, errpath);
+    ChildOutcome o = run_sequence(prop, seq, true, opts().case_timeout * 1.5, errpath);
     if (o.kind == ChildOutcome::ok) {
         std::printf("REPLAY pass file=%s\n", opts().replay.c_str());
         return 0;
@@ -920,10 +967,18 @@ inline int run_property(const Property& prop, const std::string& rule) {
         std::vector<uint64_t> seq(sh->choices, sh->choices + std::min<uint64_t>(nch, MAX_CHOICES));
         std::string err_tail = read_tail(errpath, 6000);
         next = idx + 1;
+        if (o.kind == ChildOutcome::hung && o.deadlock) {
+            // a deadlock that happened is a fact about the code, whether or not the schedule can be reproduced: report it
+            std::string path = write_replay(opts().viol_dir + "/" + opts().prop, "deadlock", o.msg, seq, const_cast<const char*>(sh->desc), read_tail(errpath, 3000));
+            res.failures.push_back(FailureRec{"deadlock", o.msg + " | " + std::string{const_cast<const char*>(sh->desc)}.substr(0, 600), path});
+            res.notes.push_back("shard stopped after a deadlock at case " + std::to_string(idx));
+            res.inconclusive = true;
+            break;
+        }
         if (o.kind == ChildOutcome::hung) {
             // rule 5: a time budget alone never produces a violation. Pre-filter here with a 4x budget; what still hangs is only a
             // *candidate*: the driver re-runs it alone (no sibling shards loading the machine) with a long budget, three times.
-            ChildOutcome again = run_sequence(prop, seq, true, opts().case_timeout * 4, errpath);
+            ChildOutcome again = run_sequence(prop, seq, true, opts().case_timeout * 2, errpath);
             if (again.kind != ChildOutcome::hung) {
                 count("slow_case_not_reproduced");
                 if (again.kind == ChildOutcome::ok) continue;
@@ -932,6 +987,11 @@ inline int run_property(const Property& prop, const std::string& rule) {
                 if (opts().hang_is_violation) {
                     std::string path = write_replay(opts().viol_dir + "/" + opts().prop, "hang-candidate", o.msg, seq, const_cast<const char*>(sh->desc), read_tail(errpath, 3000));
                     res.failures.push_back(FailureRec{"hang-candidate", o.msg, path});
+                    // a tree on which cases hang makes every further case cost a full timeout: stop this shard here, the driver
+                    // examines the candidate in isolation
+                    res.notes.push_back("shard stopped after a hang candidate at case " + std::to_string(idx));
+                    res.inconclusive = true;
+                    break;
                 } else {
                     res.notes.push_back("case " + std::to_string(idx) + " hung twice; hangs are not part of this property");
                 }
